@@ -56,6 +56,12 @@ func (et *ExecuteTimeout) Handler(ctx context.Context, name string, args []inter
 	defer cancel()
 	c := make(chan returnValue, 1)
 	go func() {
+		// the rest of the chain runs on this goroutine, out of reach of Service.Process' recover
+		defer func() {
+			if e := recover(); e != nil {
+				c <- returnValue{nil, core.NewPanicError(e)}
+			}
+		}()
 		result, err := next(ctx, name, args)
 		c <- returnValue{result, err}
 	}()
